@@ -19,17 +19,17 @@ CLAIMED = {
     technique="static must-pass-through (dominance + path enumeration) and table/shape rules over SSA",
     ref="DESIGN.md §4 C03"),
   "C04": dict(
-    text="Static who-may-call, string-template and provenance rules: the whole module is scanned for call sites into network packages (net, crypto/tls, net/http, ... and dynamic Write invokes that VTA resolves to a connection) and they are shown to be exactly the single dial, single Write, Close and deadline calls of jtp.Get; the written bytes are symbolically flattened and compared with the request template over the frame's own URL and Accept value; the dial is shown to be TLS with default verification to JoinHostPort(link.Hostname(), link.Port()|443) under link.Scheme == https; a backward provenance walk over the value-flow graph shows that every *url.URL that can reach jtp.Get is produced by url.Parse or a literal with constant path parts and an Encode()d query, walking through both operands of ResolveReference / JoinPath (which copy query and fragment of their argument verbatim). Covers every URL and handle because it constrains how request bytes can be built at all.",
+    text="Static who-may-call, string-template and provenance rules: the whole module is scanned for call sites into network packages (net, crypto/tls, net/http, ... and dynamic Write invokes that VTA resolves to a connection) and they are shown to be exactly the single dial, single Write, Close and deadline calls of jtp.Get; the written bytes are symbolically flattened and compared with the request template over the frame's own URL and Accept value; the dial is shown to be TLS with default verification to JoinHostPort(link.Hostname(), link.Port()|443) under link.Scheme == https, a non-nil tls.Config being accepted only if no field outside a whitelist that cannot change whom the certificate is checked against (no ServerName, Certificates, InsecureSkipVerify, ...) is ever stored into one; a backward provenance walk over the value-flow graph shows that every *url.URL that can reach jtp.Get is produced by url.Parse or a literal with constant path parts and an Encode()d query, walking through both operands of ResolveReference / JoinPath (which copy query and fragment of their argument verbatim). Covers every URL and handle because it constrains how request bytes can be built at all.",
     note="Trusted: net/url's escaping and rejection of control characters; a host containing control characters cannot be dialled; crypto/tls verifies with a nil config. Not decided: what the TLS stack itself sends.",
     technique="static call-site inventory (who-may-call), symbolic string template evaluation, backward provenance over the value-flow graph",
     ref="DESIGN.md §4 C04"),
   "C05": dict(
-    text="Static typestate and error-discipline analysis: for every connection value obtained from net/crypto/tls, every Write/Read/hand-off is shown to be dominated by a Set*Deadline call on that value whose argument is derived (backward value-flow) from time.Now() and config.Parsed.Network.Timeout and which is not renewed in a loop; for all ~210 error-returning calls in jtp, client, object, pub and mime the error is shown to be returned, wrapped, converted to a failure item, stored beside its value or classified, and the accompanying values to be used only where the error is known nil (branch facts) or to travel with it; every NewFailure argument is shown non-nil; the response head is parsed from complete lines only (ReadString('\\n') with its error known nil at every use, rule shared with C03.R7), so a head cut off or stalled inside a line ends in an error instead of being acted on; package-level state of the fetch path is written by initialisers only (no map that two concurrent faults could write), and every acquisition on a channel that outlives the call (semaphore slot, token) is shown to be released on every path to every return, the error paths included. An all-paths argument: it holds for every cut point and stall stage because no path can read without a deadline or drop an error.",
+    text="Static typestate and error-discipline analysis: for every connection value obtained from net/crypto/tls, every Write/Read/hand-off is shown to be dominated by a Set*Deadline call on that value whose argument is derived (backward value-flow) from time.Now() and config.Parsed.Network.Timeout and which is not renewed in a loop, and every dial to go through a net.Dialer whose Timeout is that configured value itself (not a derived quantity that can be zero); for all ~210 error-returning calls in jtp, client, object, pub and mime the error is shown to be returned, wrapped, converted to a failure item, stored beside its value or classified, and the accompanying values to be used only where the error is known nil (branch facts) or to travel with it; every NewFailure argument is shown non-nil; the response head is parsed from complete lines only (ReadString('\\n') with its error known nil at every use, rule shared with C03.R7), so a head cut off or stalled inside a line ends in an error instead of being acted on; every index into the pieces of a split text (strings.Fields / Split) is shown to be within the number of pieces known at that point (rule shared with C06.K9); package-level state of the fetch path is written by initialisers only (no map that two concurrent faults could write), and every acquisition on a channel that outlives the call (semaphore slot, token) is shown to be released on every path to every return, the error paths included. An all-paths argument: it holds for every cut point and stall stage because no path can read without a deadline or drop an error.",
     note="Trusted: net.Conn deadline semantics, json.Decoder rejecting truncated objects. Not decided: wall-clock bounds, kernel/TLS behaviour, non-positive configured timeouts (C19).",
     technique="static typestate (deadline-before-I/O dominance) + error-flow discipline over SSA with branch facts",
     ref="DESIGN.md §4 C05"),
   "C08": dict(
-    text="Whole-program static lock-state dataflow (held / caller's / not held, defer-aware) over go/ssa with the VTA call graph, plus an effects (write-set) analysis of fan-out goroutines: every access to UI state, every emitted frame and every render-cache write is shown to happen with State.m held on every path; lock pairing, non-reentrancy, WaitGroup balance, pairwise disjoint write sets of concurrently running closures and read-only sharing of documents/configuration are decided for every function of the module; every store into a field of a pub item type (Post, Actor, Activity, Collection, Link, Failure) is shown to target the object the enclosing constructor has just allocated, so items, which loader goroutines read outside State.m and pages share, are never written after construction. All paths and all schedules are covered because the rule is a must-analysis over the code, not a sample of executions.",
+    text="Whole-program static lock-state dataflow (held / caller's / not held, defer-aware) over go/ssa with the VTA call graph, plus an effects (write-set) analysis of fan-out goroutines: every access to UI state, every emitted frame and every render-cache write is shown to happen with State.m held on every path; lock pairing, non-reentrancy, WaitGroup balance, pairwise disjoint write sets of concurrently running closures (captured variables of closures made elsewhere and handed over count as one shared cell) and read-only sharing of documents/configuration are decided for every function of the module; every store into a field of a pub item type (Post, Actor, Activity, Collection, Link, Failure) is shown to target the object the enclosing constructor has just allocated, so items, which loader goroutines read outside State.m and pages share, are never written after construction. All paths and all schedules are covered because the rule is a must-analysis over the code, not a sample of executions.",
     note="Trusted: go/types+go/ssa+VTA (x/tools v0.29.0), sync primitives, lru.Cache and singleflight.Group being internally synchronised, library callbacks being synchronous. Not decided: liveness under real schedulers, races inside dependencies, the deliberate lock hold on a failing sub-command.",
     technique="static lock-state must-dataflow + write-set (effects) disjointness over SSA and the VTA call graph",
     ref="DESIGN.md §4 C08"),
@@ -78,7 +78,7 @@ CLAIMED.update({
     technique="static provenance (def-use pairing), exhaustive path enumeration with phi resolution in the gatekeeper, backward value-flow walk, who-may-call",
     ref="DESIGN.md §4 C02"),
   "C09": dict(
-    text="Static path-fact rules on the three membership gatekeepers: for the outbox and reply construct closures every return is shown to be either a NewFailure item (never nil: impostors stay in place as error items) or the item built by NewActivity/NewPost from the element handed in, on a path that knows owner id != nil, accessor() != nil and accessor().String() == id.String(); the outbox / replies / comments collections are shown to be built with the matching closure and the owner's id, Collection.construct to be stored only from the constructor parameter and every non-nil result of the constructor to be its own allocation (no remembered collection), harvest to deliver construct(elements[k], c.id) at its own slot and to pass construct on to the next page; NewPostFromObject's success return is shown to lie behind a loop over all creators (after the fan-out joined) in which every path back to the loop head knows equal hosts with both ids non-nil, or both ids nil; identifier accessors return validated id fields under their error guards, and id fields are stored only from the constructors' id parameter.",
+    text="Static path-fact rules on the three membership gatekeepers: for the outbox and reply construct closures every return is shown to be either a NewFailure item (never nil: impostors stay in place as error items) or the item built by NewActivity/NewPost from the element handed in, on a path that knows owner id != nil, accessor() != nil and accessor().String() == id.String(); the outbox / replies / comments collections are shown to be built with the matching closure and the owner's id, Collection.construct to be stored only from the constructor parameter and every non-nil result of the constructor to be its own allocation (no remembered collection), harvest to deliver construct(elements[k], c.id) at its own slot and to pass construct on to the next page; NewPostFromObject's success return is shown to lie behind a loop over all creators (after the fan-out joined) in which every path back to the loop head knows equal hosts with both ids non-nil, or both ids nil, and which is left towards a success return only when the range is exhausted; identifier accessors return validated id fields under their error guards, and id fields are stored only from the constructors' id parameter.",
     note="Assumes the ids compared are the validated ids of C02. Not decided: generated worlds end to end; whether string equality of URLs is the right identity.",
     technique="static path facts (dominating comparisons on accepting paths) in gatekeeper closures, wiring/table agreement, path enumeration in the creators loop",
     ref="DESIGN.md §4 C09"),
@@ -94,7 +94,7 @@ CLAIMED.update({
 
 CLAIMED.update({
   "C06": dict(
-    text="Crash clause only, decided by static obligation classes over every function of the packages below the UI: K1 every type assertion is comma-ok or provably holds; K2 every dereference of the value of a value+Err pair is dominated by its error being nil and every producer stored into a pair is shown to return non-nil with a nil error (including slices whose every slot is filled by a checked constructor); K3 every strings.Repeat count, make size, non-constant index and slice bound that can depend on a width parameter or link number (forward value flow from all String/Preview/Render/SelectLink parameters) is proven in range from branch facts by a linear-inequality prover; K4 every index into a regexp match is checked against the pattern's capture structure (regexp/syntax) and shown guarded by a length test, a total pattern or FindAll, and first-rune extraction only on non-empty captures; K5 every explicit panic is discharged (non-negative labels into superscript, accepted Activity kinds ⊆ rendered kinds, non-nil harvest receivers, non-nil NewFailure arguments); K7 every call-graph SCC is in a table of recursions with a checked termination measure; K8 every dereference of a *url.URL anywhere in the module (field read or net/url method call; identifiers can be absent, so these pointers can be nil) is shown to be at a point where the pointer is provably non-nil — a dominating nil test, a checked url.Parse / ResolveReference result, the source of a successful fetch, or a parameter that every call site provides non-nil (assume-guarantee over the call graph, including (value, found, error) producers). The hang / resource clause is NOT claimed.",
+    text="Crash clause only, decided by static obligation classes over every function of the packages below the UI: K1 every type assertion is comma-ok or provably holds; K2 every dereference of the value of a value+Err pair is dominated by its error being nil and every producer stored into a pair is shown to return non-nil with a nil error (including slices whose every slot is filled by a checked constructor); K3 every strings.Repeat count, make size, non-constant index and slice bound that can depend on a width parameter or link number (forward value flow from all String/Preview/Render/SelectLink parameters) is proven in range from branch facts by a linear-inequality prover; K4 every index into a regexp match is checked against the pattern's capture structure (regexp/syntax) and shown guarded by a length test, a total pattern or FindAll, and first-rune extraction only on non-empty captures; K5 every explicit panic is discharged (non-negative labels into superscript, accepted Activity kinds ⊆ rendered kinds, non-nil harvest receivers, non-nil NewFailure arguments); K7 every call-graph SCC is in a table of recursions with a checked termination measure; K8 every dereference of a *url.URL anywhere in the module (field read or net/url method call; identifiers can be absent, so these pointers can be nil) is shown to be at a point where the pointer is provably non-nil — a dominating nil test, a checked url.Parse / ResolveReference result, the source of a successful fetch, or a parameter that every call site provides non-nil (assume-guarantee over the call graph, including (value, found, error) producers); K9 every index or slice bound applied to the result of strings.Fields, or a constant index above 0 into a strings.Split result, is shown to be within the length known at that point. The hang / resource clause is NOT claimed.",
     note="Not decided: the hang/memory clause (cost of nested indenting blocks — the property text records that the tree violates it with ~82 nested blockquotes; no sound static cost analysis is in reach), nil dereferences outside K2/K6/K8, and ~15 bounds checks resting on relational invariants, listed in the evidence as unclaimed sites. K6 (typed nil) is decided under C11.R1.",
     technique="static may-panic site enumeration with per-class discharge: branch facts + linear inequalities, regexp/syntax shape analysis, nil-flow, call-graph SCC table",
     ref="DESIGN.md §4 C06"),
@@ -107,7 +107,7 @@ CLAIMED.update({
 
 CLAIMED.update({
   "C16": dict(
-    text="The frame-height clause, decided by static abstract interpretation of the layout code in a line-count domain: every string value is abstracted to the number of its lines as a linear form over symbols (one per parameter or opaque value), slices of lines to their length, evaluated along every acyclic path of the function with the branch facts of the path as hypotheses and discharged by a small linear-inequality prover (equalities eliminated first); the transfer functions are summaries of strings.Count/Split/Join/Repeat/LastIndex/Contains, concatenation, slicing (bounds must be provable), unsigned subtraction (no wrap-around must be provable) and division/remainder by a constant. Decided: ansi.Height counts lines; on every path of ansi.CenterVertically the result has exactly `height` lines and the rows above the centred text are floor(spare/2) (spare rows split evenly, the odd one below); ansi.ReplaceLastLine keeps the number of lines of a frame of at least two rows and consists of the original up to its last line feed plus the replacement; every return of ui.(*State).view is such a frame for uint(s.height), the status line put in by ReplaceLastLine only; every call of the terminal callback in the module passes view() of the same state. All heights >= 2 and all contents are covered because line counts are symbolic.",
+    text="The frame-height clause, decided by static abstract interpretation of the layout code in a line-count domain: every string value is abstracted to the number of its lines as a linear form over symbols (one per parameter or opaque value), slices of lines to their length, evaluated along every acyclic path of the function with the branch facts of the path as hypotheses and discharged by a small linear-inequality prover (equalities eliminated first); the transfer functions are summaries of strings.Count/Split/Join/Repeat/LastIndex/Contains, concatenation, slicing (bounds must be provable), unsigned subtraction (no wrap-around must be provable) and division/remainder by a constant. Decided: ansi.Height counts lines; on every path of ansi.CenterVertically the result has exactly `height` lines and the rows above the centred text are floor(spare/2) (spare rows split evenly, the odd one below); ansi.ReplaceLastLine keeps the number of lines of a frame of at least two rows and consists of the original up to its last line feed plus the replacement; every return of ui.(*State).view is such a frame for uint(s.height), the status line put in by ReplaceLastLine only; every call of the terminal callback in the module passes view() of the same state, with nothing called in between; State.height is stored only from the size the terminal reported, and SetWidthHeight takes every reported height >= 2 that differs from the stored one over before a frame is emitted. All heights >= 2 and all contents are covered because line counts are symbolic.",
     note="Assumed: terminal height >= 2 (the property's own precondition); library semantics as summarised in checker/lines.go; main.printRaw writes the frame unchanged apart from CR LF translation. Not decided: which item is highlighted and what the lines contain, heights below 2, states reached by key histories (C07), what the terminal does with the frame.",
     technique="static abstract interpretation in a line-count domain (linear forms per enumerated path, branch facts as hypotheses, linear-inequality prover) + call-site inventory of the terminal callback",
     ref="DESIGN.md §4 C16"),
